@@ -1442,6 +1442,12 @@ reg(Contract('dd.bdd._sort_to_order', [('bdd', 'mgr'), ('order', 'dict:name->int
                   'not derived in the SMT layer). Rests on the ASSUMED order effect of swap'))
 
 
+reg(Contract('dd.bdd.reorder!order', [('bdd', 'mgr'), ('order', 'dict:name->int')], mgr='bdd',
+             pre=lambda c: wf(c.S, ORD) + order_valid(c.S, c.a.order), post=lambda c: sto_post(c), modifies=M.ALLF, ret='none', uses=ORD,
+             raises=REG['dd.bdd._sort_to_order'].raises if False else {'ValueError': Raise(when=lambda c: BoolVal(True), post=lambda c: [])},
+             note='reorder(bdd, order): delegates to _sort_to_order (the sifting branch, order=None, stays bounded / observed)'))
+
+
 # ---------------------------------------------------------------------------------------------------------------
 # relational product (C13): `_image` against the ghost functions IMG / FIMG on *pairs* of references.
 # For the fixed arbitrary assignment A, with B = A o umap (term A2), IMG(u, v) is "some choice of values for the levels in Q
